@@ -121,7 +121,9 @@ def worker_loop(
                             # Reported to the master below: the job's Future must
                             # not be left pending.
                             raise
-                    if not isinstance(pcfg, list) or not all(
+                    if isinstance(pcfg, Pipeline):
+                        pass  # a Pipeline instance is used as it is
+                    elif not isinstance(pcfg, list) or not all(
                         isinstance(step, dict) for step in pcfg
                     ):
                         worker_logger.error(
@@ -140,7 +142,9 @@ def worker_loop(
                     )
 
                     # 2) Instantiate the Pipeline object
-                    if isinstance(pcfg, list):
+                    if isinstance(pcfg, Pipeline):
+                        pipeline = pcfg
+                    elif isinstance(pcfg, list):
                         pipeline = Pipeline(pcfg, logger=worker_logger)
                     else:
                         raise TypeError(f"Unsupported pipeline config: {type(pcfg)}")
